@@ -519,6 +519,31 @@ func main() {
 		}
 	}
 
+	// 3. the same option lists through the command-line path (-g go:<list>): what Targets() hands to
+	// HandleOptions must configure the backend exactly as the list given to HandleOptions directly
+	cmdLists := [][]string{{"use_package=a.b/c=d.e/f"}, {"gen_setter", "use_package=x/y=z/w"}, {"use_package=x/y=z/w", "gen_setter=false"}, {"use_package=p=q", "use_package=r=s"}, {"naming_style=apache", "use_package=m=n", "template=slim"},
+		{"thrift_import_path=github.com/a/b"}, {"package_prefix=a/b", "gen_deep_equal=true", "use_package=k=l"}, {"json_enum_as_text", "keep_unknown_fields=true", "validate_set=false"}}
+	for _, l := range cmdLists {
+		g := "go:" + strings.Join(l, ",")
+		a := &args.Arguments{Langs: []string{g}}
+		specs, err := a.Targets()
+		traces++
+		if err != nil || len(specs) != 1 {
+			run.Violate(evid.Violation{Class: "targets-error", What: fmt.Sprintf("Targets(%q): %v", g, err), Replay: map[string]any{"gen": g}})
+			continue
+		}
+		resetStyles()
+		direct := golang.NewCodeUtils(backend.DummyLogFunc())
+		e1 := direct.HandleOptions(l)
+		resetStyles()
+		viaCmd := golang.NewCodeUtils(backend.DummyLogFunc())
+		e2 := viaCmd.HandleOptions(plugin.Pack(specs[0].Options))
+		dk, vk := observe(d, direct).key(), observe(d, viaCmd).key()
+		if (e1 == nil) != (e2 == nil) || dk != vk {
+			run.Violate(evid.Violation{Class: "command-line-differs-from-option-list:" + strings.SplitN(l[0], "=", 2)[0], What: fmt.Sprintf("-g %s: the backend is configured as %v (err %v), the same options given directly give %v (err %v)", g, vk, e2, dk, e1), Replay: map[string]any{"gen": g}})
+		}
+	}
+
 	run.Set("states", len(states))
 	run.Set("transitions", transitions)
 	run.Set("traces", traces)
